@@ -329,15 +329,19 @@ public:
   {
     if(data->type != mapType || data->ref > 1)
     {
-      clear();
-      data = (Data*)new char[sizeof(Data) + sizeof(HashMap<String, Variant>)];
-      HashMap<String, Variant>* map = (HashMap<String, Variant>*)(data + 1);
+      Data* newData = (Data*)new char[sizeof(Data) + sizeof(HashMap<String, Variant>)];
+      HashMap<String, Variant>* map = (HashMap<String, Variant>*)(newData + 1);
       new (map) HashMap<String, Variant>(other);
+      clear();
+      data = newData;
       data->type = mapType;
       data->ref = 1;
     }
     else
-      *(HashMap<String, Variant>*)(data + 1) = other;
+    {
+      HashMap<String, Variant> copy(other);
+      ((HashMap<String, Variant>*)(data + 1))->swap(copy);
+    }
     return *this;
   }
 
@@ -369,15 +373,19 @@ public:
   {
     if(data->type != listType || data->ref > 1)
     {
-      clear();
-      data = (Data*)new char[sizeof(Data) + sizeof(List<Variant>)];
-      List< Variant>* list = (List<Variant>*)(data + 1);
+      Data* newData = (Data*)new char[sizeof(Data) + sizeof(List<Variant>)];
+      List<Variant>* list = (List<Variant>*)(newData + 1);
       new (list) List<Variant>(other);
+      clear();
+      data = newData;
       data->type = listType;
       data->ref = 1;
     }
     else
-      *(List<Variant>*)(data + 1) = other;
+    {
+      List<Variant> copy(other);
+      ((List<Variant>*)(data + 1))->swap(copy);
+    }
     return *this;
   }
 
@@ -409,15 +417,19 @@ public:
   {
     if(data->type != arrayType || data->ref > 1)
     {
-      clear();
-      data = (Data*)new char[sizeof(Data) + sizeof(Array<Variant>)];
-      Array<Variant>* array = (Array<Variant>*)(data + 1);
+      Data* newData = (Data*)new char[sizeof(Data) + sizeof(Array<Variant>)];
+      Array<Variant>* array = (Array<Variant>*)(newData + 1);
       new (array) Array<Variant>(other);
+      clear();
+      data = newData;
       data->type = arrayType;
       data->ref = 1;
     }
     else
-      *(Array<Variant>*)(data + 1) = other;
+    {
+      Array<Variant> copy(other);
+      ((Array<Variant>*)(data + 1))->swap(copy);
+    }
     return *this;
   }
 
@@ -457,10 +469,11 @@ public:
   {
     if(data->type != stringType || data->ref > 1)
     {
-      clear();
-      data = (Data*)new char[sizeof(Data) + sizeof(String)];
-      String* string = (String*)(data + 1);
+      Data* newData = (Data*)new char[sizeof(Data) + sizeof(String)];
+      String* string = (String*)(newData + 1);
       new (string) String(other);
+      clear();
+      data = newData;
       data->type = stringType;
       data->ref = 1;
     }
